@@ -188,7 +188,8 @@ def gen_case(rng, tier, idx, budget=None):
         comps = [gen_comp(rng, dim, lg, b, rich) for b in bases]
     else:
         comps = [gen_comp(rng, dim, lg, fld("u", 0, lg), rich)]
-    return {"flavour": flavour, "dim": dim, "domain": domain, "mapping": mapping, "cls": cls, "kind": kind,
+    spelling = kind if rng.random() < 0.7 else rng.choice([kind.upper(), kind.capitalize()])
+    return {"flavour": flavour, "kind_spelling": spelling, "dim": dim, "domain": domain, "mapping": mapping, "cls": cls, "kind": kind,
             "vector": vector, "container": container, "comps": comps, "seed": rng.randrange(1 << 30)}
 
 
